@@ -155,6 +155,17 @@ ClassificationOK(op, sub, fq, A, B, allowStale) ==
                   /\ (e[2] <= ps[2][1] \/ allowStale)              \* allowStale: it WAS below when an ancestor recorded it
                   /\ (e[2] <= ps[2][1] => Orient(ps[1], ps[2], EPt(e)) >= 0)   \* (the extension of an edge that has ended says nothing)
                   /\ EPir(e) # i
+                  \* strict reading only: it is the NEAREST one - no other non-vertical result edge q that crosses the sweep
+                  \* position of e lies strictly between the recorded edge and e (sub-segments do not cross, so "q above p" is
+                  \* decided by the end points of the one that starts later)
+                  /\ (allowStale \/ ~\E j \in PL :
+                         LET q == T[j]  qs == SegOf(T, j) IN
+                         /\ j # i /\ j # EPir(e) /\ ERt(q) # 0 /\ qs[1][1] # qs[2][1] /\ qs # ps
+                         /\ qs[1][1] <= e[2] /\ e[2] < qs[2][1]
+                         /\ Orient(qs[1], qs[2], EPt(e)) > 0
+                         /\ IF qs[1][1] >= ps[1][1]
+                            THEN Orient(ps[1], ps[2], qs[1]) > 0 \/ (Orient(ps[1], ps[2], qs[1]) = 0 /\ Orient(ps[1], ps[2], qs[2]) > 0)
+                            ELSE Orient(qs[1], qs[2], ps[1]) < 0 \/ (Orient(qs[1], qs[2], ps[1]) = 0 /\ Orient(qs[1], qs[2], ps[2]) < 0))
 
 \* ------------------------------------------------------------------ C15
 \* the event order of the statement: x, y, right before left, then angular (lower segment
